@@ -143,3 +143,126 @@ Theorem C14_layout_same_nets_areas : forall (thr : Qc) (rnd : nat -> nat -> nat 
       (s_hard m && negb (s_fixed m) = false -> s_rects m' = s_rects m).
 Proof. exact @layout_same_nets_areas. Qed.
 Print Assumptions C14_layout_same_nets_areas.
+
+(* ---- Module.recenter_rectangles at full strength: BOTH axes, every input ---- *)
+(* every rectangle is moved by (centre - area-weighted centre of the rectangles), x and y *)
+Theorem C14_recenter_exact : forall (rs : list Rect) (c : vec) (rs' : list Rect),
+  recenter rs c = Ok rs' ->
+  rects_area rs <> 0 /\ rs' = map (shift (fst c - gx rs) (snd c - gy rs)) rs.
+Proof. exact recenter_exact. Qed.
+Print Assumptions C14_recenter_exact.
+
+(* per rectangle and per axis: an axis stands still exactly when ITS OWN increment is zero; a
+   coincidence (zero increment) in one axis does not keep the other axis from moving *)
+Theorem C14_recenter_axes : forall (rs : list Rect) (c : vec) (rs' : list Rect) (i : nat) (r : Rect),
+  recenter rs c = Ok rs' -> nth_error rs i = Some r ->
+  exists r', nth_error rs' i = Some r' /\ shape_of r' = shape_of r /\
+    cx r' = cx r + (fst c - gx rs) /\ cy r' = cy r + (snd c - gy rs) /\
+    (cx r' = cx r <-> fst c = gx rs) /\ (cy r' = cy r <-> snd c = gy rs).
+Proof. exact recenter_nth. Qed.
+Print Assumptions C14_recenter_axes.
+
+Theorem C14_recenter_centred : forall (rs : list Rect) (c : vec) (rs' : list Rect),
+  recenter rs c = Ok rs' -> centroid_is rs' c.
+Proof. exact recenter_centroid_is. Qed.
+Print Assumptions C14_recenter_centred.
+
+(* zero increments in both axes: already centred rectangles stay where they are; the move is idempotent *)
+Theorem C14_recenter_fixpoint : forall (rs : list Rect) (c : vec),
+  rects_area rs <> 0 -> gx rs = fst c -> gy rs = snd c -> recenter rs c = Ok rs.
+Proof. exact recenter_fixpoint. Qed.
+Print Assumptions C14_recenter_fixpoint.
+
+Theorem C14_recenter_idem : forall (rs : list Rect) (c : vec) (rs' : list Rect),
+  recenter rs c = Ok rs' -> recenter rs' c = Ok rs'.
+Proof. exact recenter_idem. Qed.
+Print Assumptions C14_recenter_idem.
+
+(* a hard module driven through its public interface (centre setter, add_rectangle, recenter_rectangles in
+   any order): a recenter_rectangles() that returns acts on the rectangles and the centre the module has NOW *)
+Theorem C14_recenter_history : forall (ops : list rc_op) (st st' : rc_state),
+  rc_run (ops ++ [RcRecenter]) st = Ok st' ->
+  exists st1 c, rc_run ops st = Ok st1 /\ rc_centre st1 = Some c /\ rc_centre st' = Some c /\
+    rc_rects st' = map (shift (fst c - gx (rc_rects st1)) (snd c - gy (rc_rects st1))) (rc_rects st1) /\
+    centroid_is (rc_rects st') c.
+Proof. exact rc_history. Qed.
+Print Assumptions C14_recenter_history.
+
+(* spectral_layout moves a movable hard module to the computed position c in both axes *)
+Theorem C14_layout_rigid_exact : forall (thr : Qc) (rnd : nat -> nat -> nat -> Qc)
+    (produce : nat -> nat -> nat -> list (list Qc) -> list Qc -> list Qc) (niter : nat -> nat -> nat)
+    (A B : Type) (radius_of : smod A -> Qc) (W H : Qc) (nf : nat) (nl out : snet A B) (i : nat) (m : smod A),
+  spectral_layout thr rnd produce niter radius_of W H nf nl = Ok out ->
+  nth_error (s_mods nl) i = Some m -> s_fixed m = false -> s_hard m = true ->
+  exists m' c, nth_error (s_mods out) i = Some m' /\
+    s_rects m' = map (shift (fst c - gx (s_rects m)) (snd c - gy (s_rects m))) (s_rects m) /\
+    centroid_is (s_rects m') c /\
+    (radius_of m <= W * half -> radius_of m <= H * half -> disc_in_die W H c (radius_of m)).
+Proof. exact @layout_rigid_exact. Qed.
+Print Assumptions C14_layout_rigid_exact.
+
+(* ---- several calls on ONE Spectral object (other dies, trial counts, seeds) ----
+   [sess_init] is Spectral.__init__ (graph, masses, fixed flags and the centre matrix are stored once),
+   [sess_run] a sequence of spectral_layout calls, each with its own die, trial count and arbitrary
+   random start / iteration vectors.  The statements are about the LAST call of any sequence. *)
+Theorem C14_session_single : forall (thr : Qc) (A B : Type) (radius_of : smod A -> Qc) rnd produce niter
+    (W H : Qc) (nf : nat) (nl : snet A B),
+  spectral_layout thr rnd produce niter radius_of W H nf nl =
+  match sess_init radius_of nl with
+  | Ok s0 => match sess_run thr [mkCall W H nf rnd produce niter] s0 with
+             | Ok s => Ok (mkSnet (ss_mods s) (ss_adj s) (ss_nets s))
+             | EmptyMin => EmptyMin | ZeroDiv => ZeroDiv | AssertFail => AssertFail
+             end
+  | EmptyMin => EmptyMin | ZeroDiv => ZeroDiv | AssertFail => AssertFail
+  end.
+Proof. exact @layout_is_session. Qed.
+Print Assumptions C14_session_single.
+
+Theorem C14_session_discs : forall (thr : Qc) (A B : Type) (radius_of : smod A -> Qc)
+    (nl : snet A B) (calls : list call) (c : call) (s0 s2 : sess A B) (i : nat) (m0 : smod A),
+  sess_init radius_of nl = Ok s0 -> sess_run thr (calls ++ [c]) s0 = Ok s2 ->
+  nth_error (s_mods nl) i = Some m0 -> s_fixed m0 = false ->
+  radius_of m0 <= c_W c * half -> radius_of m0 <= c_H c * half ->
+  exists m2 p, nth_error (ss_mods s2) i = Some m2 /\ position_is m2 p /\
+               disc_in_die (c_W c) (c_H c) p (radius_of m0).
+Proof. exact @session_discs. Qed.
+Print Assumptions C14_session_discs.
+
+Theorem C14_session_fixed : forall (thr : Qc) (A B : Type) (radius_of : smod A -> Qc)
+    (nl : snet A B) (calls : list call) (c : call) (s0 s2 : sess A B) (i : nat) (m0 : smod A),
+  sess_init radius_of nl = Ok s0 -> sess_run thr (calls ++ [c]) s0 = Ok s2 ->
+  nth_error (s_mods nl) i = Some m0 -> s_fixed m0 = true ->
+  exists c0, s_centre m0 = Some c0 /\
+    nth_error (ss_mods s2) i =
+    Some (mkSmod (if s_hard m0 && negb (s_terminal m0) then None else Some c0)
+                 (s_fixed m0) (s_hard m0) (s_terminal m0) (s_rects m0) (s_other m0)).
+Proof. exact @session_fixed. Qed.
+Print Assumptions C14_session_fixed.
+
+(* m1 = the module as the object holds it just before the last call (the current values) *)
+Theorem C14_session_rigid : forall (thr : Qc) (A B : Type) (radius_of : smod A -> Qc)
+    (nl : snet A B) (calls : list call) (c : call) (s0 s2 : sess A B) (i : nat) (m0 : smod A),
+  sess_init radius_of nl = Ok s0 -> sess_run thr (calls ++ [c]) s0 = Ok s2 ->
+  nth_error (s_mods nl) i = Some m0 -> s_fixed m0 = false -> s_hard m0 = true ->
+  exists (s1 : sess A B) m1 m2 p,
+    sess_run thr calls s0 = Ok s1 /\ nth_error (ss_mods s1) i = Some m1 /\ nth_error (ss_mods s2) i = Some m2 /\
+    s_rects m2 = map (shift (fst p - gx (s_rects m1)) (snd p - gy (s_rects m1))) (s_rects m1) /\
+    centroid_is (s_rects m2) p /\
+    (radius_of m0 <= c_W c * half -> radius_of m0 <= c_H c * half -> disc_in_die (c_W c) (c_H c) p (radius_of m0)) /\
+    (exists dx dy, s_rects m1 = map (shift dx dy) (s_rects m0)) /\
+    (exists dx dy, s_rects m2 = map (shift dx dy) (s_rects m0)).
+Proof. exact @session_rigid. Qed.
+Print Assumptions C14_session_rigid.
+
+Theorem C14_session_same_nets_areas : forall (thr : Qc) (A B : Type) (radius_of : smod A -> Qc)
+    (nl : snet A B) (calls : list call) (s0 s : sess A B),
+  sess_init radius_of nl = Ok s0 -> sess_run thr calls s0 = Ok s ->
+  ss_nets s = s_nets nl /\ ss_adj s = s_adj nl /\ List.length (ss_mods s) = List.length (s_mods nl) /\
+  forall i m0, nth_error (s_mods nl) i = Some m0 ->
+    exists m, nth_error (ss_mods s) i = Some m /\
+      s_other m = s_other m0 /\ s_fixed m = s_fixed m0 /\ s_hard m = s_hard m0 /\ s_terminal m = s_terminal m0 /\
+      map shape_of (s_rects m) = map shape_of (s_rects m0) /\ rects_area (s_rects m) = rects_area (s_rects m0) /\
+      (s_hard m0 && negb (s_fixed m0) = false -> s_rects m = s_rects m0) /\
+      (exists dx dy, s_rects m = map (shift dx dy) (s_rects m0)).
+Proof. exact @session_same. Qed.
+Print Assumptions C14_session_same_nets_areas.
